@@ -69,7 +69,29 @@ for sub,props,expect in REV:
         os.makedirs(f"{ROOT}/mutants/{p}",exist_ok=True)
         open(f"{ROOT}/mutants/{p}/rev-{c}.diff","w").write(f"# expect: {expect}\n# reverse of /repo fix: commit {c} ({sub})\n"+d)
         n+=1
-# seeded changes
+# seeded changes: the rule that is meant to see each (an incidental report by another rule does not count)
+SEED_EXPECT={
+ "C01-1":"R-WIRE/W5","C01-2":"R-FLOW/F2","C01-3":"R-FLOW/anycontent",
+ "C02-1":"R-PROV/V1","C02-2":"R-CONST/importnames","C02-3":"R-CONST/httppath",
+ "C03-3":"R-FLOW/F2c","C04-1":"R-PROV/jsonname","C04-2":"R-SYM/S7","C04-3":"R-SYM/S7",
+ "C05-1":"R-FLOW/optkind","C05-2":"R-COVER/label","C05-3":"R-CONST/copy",
+ "C06-1":"R-PANIC/P6","C06-3":"R-TERM/T-cost",
+ "C07-1":"R-FLOW/deps","C07-2":"R-EXH/X5","C07-3":"R-FLOW/descroot",
+ "C08-1":"R-WIRE/W5","C08-2":"R-CONST/copy","C08-3":"R-WIRE/W4",
+ "C09-1":"R-CONST/escapes","C09-2":"R-CONST/opaque","C09-3":"R-SYM/forms",
+ "C10-1":"R-LOCK/L2","C10-2":"R-LOCK/L2","C10-3":"R-LOCK/L2",
+ "C11-1":"R-PANIC/P2","C11-2":"R-POS/errs","C11-3":"R-TERM/T-eof",
+ "C12-2":"R-SYM/S9","C12-3":"R-SYM/S4p",
+ "C13-1":"R-PROV/V2","C13-2":"R-PROV/V5","C13-3":"R-PROV/V1",
+ "C14-1":"R-DET/N4","C14-2":"R-DET/N3","C14-3":"R-DET/N1",
+ "C15-1":"R-SYM/S1","C15-2":"R-SYM/S5v","C15-3":"R-SYM/S5v",
+ "C16-1":"R-FLOW/split","C16-2":"R-PROV/pathnames","C16-3":"R-FLOW/closure",
+ "C17-1":"R-FLOW/pathkeys","C17-2":"R-SYM/S7","C17-3":"R-FLOW/carried",
+ "C18-1":"R-ERR/E4","C18-2":"R-FLOW/acc","C18-3":"R-EXH/mapentry",
+ "C19-1":"R-CONST/fmtdiff","C19-2":"R-POS/cover","C19-3":"R-CONST/fmtdiff",
+ "C20-1":"R-FLOW/align","C20-2":"R-FLOW/align","C20-3":"R-FLOW/soleparser",
+ "C03-1":"R-ERR/E4","C03-2":"R-ERR/E4",
+}
 for d in sorted(glob.glob(f"{ROOT}/seeded/C*")):
     sid=os.path.basename(d); p=sid.split("-")[0]
     patch=open(d+"/patch.diff").read()
@@ -79,6 +101,7 @@ for d in sorted(glob.glob(f"{ROOT}/seeded/C*")):
         for f in glob.glob(f"{ROOT}/mutants/*/seed-{sid}.diff"): os.remove(f)
         continue
     os.makedirs(f"{ROOT}/mutants/{p}",exist_ok=True)
-    open(f"{ROOT}/mutants/{p}/seed-{sid}.diff","w").write(f"# expect: VIOLATION\n# seeded change {sid} (sub-agent, confirmed)\n"+patch)
+    expect=SEED_EXPECT.get(sid,"VIOLATION")
+    open(f"{ROOT}/mutants/{p}/seed-{sid}.diff","w").write(f"# expect: {expect}\n# seeded change {sid} (sub-agent, confirmed)\n"+patch)
     n+=1
 print("wrote",n,"mutant files")
